@@ -245,6 +245,8 @@ class Check:
         self.violations = []   # (what, replay_obj)
         self.assumptions = []
         self.known_hits = []
+        for f in glob.glob(os.path.join(REPLAYS, pid + "-*")):
+            os.remove(f)
 
     def add_tlc(self, name, r):
         self.cov["states"] += r.distinct
